@@ -33,7 +33,7 @@ class C16(RailsProp):
             "option subsets and verdicts of their own (every optioned request is judged), continued through the message list or through the returned state object. "
             "non-trivial = runs with a proper subset selected and at least one rail configured in a category; distinct = distinct (mode, subset, rail kinds, verdict vector, position)")
     assumptions = ["no schedule/fault dimension exists for this property; the simulator only supplies ground truth (seam history) and determinism"]
-    expected_probes = ["input_only", "input_output_with_bot_message", "output_only", "blocked_with_stop_flag", "rewritten", "as_later_turn", "after_earlier_optioned_request"]
+    expected_probes = ["retrieval_rails_ran", "input_only", "input_output_with_bot_message", "output_only", "blocked_with_stop_flag", "rewritten", "as_later_turn", "after_earlier_optioned_request"]
     exhaustive_parts = ["all 16 subsets of the four categories (cycled by run index)"]
     quick_runs = 640
     thorough_runs = 60000
@@ -50,6 +50,7 @@ class C16(RailsProp):
         # runs in a later request with another subset.  The conversation is continued the two ways the API offers:
         # the message list (events cache of the instance) or the returned state object.
         sc["continuity"] = d.choice(["messages", "state"], "cont")
+        sc["ret_rails"] = d.weighted([(0, 3), (1, 3), (2, 1)], "retrails")
         sc["opt_style"] = d.randint(0, 1, "optstyle")
         plan = []
         for k in range(sc["prior_turns"]):
@@ -132,6 +133,11 @@ class C16(RailsProp):
             out.violate("unselected-category-ran", cc + ":input", "request %d: input rails %r ran although 'input' was not selected" % (t, [e["rail"] for e in in_inv]))
         if "output" not in S and out_inv:
             out.violate("unselected-category-ran", cc + ":output", "request %d: output rails %r ran although 'output' was not selected" % (t, [e["rail"] for e in out_inv]))
+        ret_inv = [e for e in rec.events if e["kind"] == "retrieval"]
+        if ret_inv:
+            out.probe("retrieval_rails_ran")
+        if "retrieval" not in S and ret_inv:
+            out.violate("unselected-category-ran", cc + ":retrieval", "request %d: retrieval rails %r ran although 'retrieval' was not selected (options rails=%r)" % (t, [e["name"] for e in ret_inv], sorted(S)))
         if "dialog" not in S and gens:
             out.violate("llm-generation-with-dialog-off", cc, "request %d: LLM task(s) %r were prompted although 'dialog' was not selected" % (t, [g["task"] for g in gens]))
         in_block = None
